@@ -1,11 +1,14 @@
 #!/bin/bash
 # tools/trymut.sh <patch.diff> <Cxx> [<Cxx>...]  : apply patch to /repo, run quick checks, ALWAYS revert.
+# The evidence files are saved before and restored afterwards: what is committed under evidence/ must come from the unchanged tree.
 p=$(realpath "$1"); shift
 cd /repo || exit 9
 if ! git diff --quiet; then echo "/repo dirty, refusing"; exit 9; fi
 if ! git apply --check "$p" 2>/dev/null; then echo "PATCH DOES NOT APPLY: $p"; exit 8; fi
+bak=$(mktemp -d /var/tmp/evidence-bak-XXXXXX)
+cp -a /verif/evidence/. "$bak"/
 git apply "$p"
-trap 'git -C /repo checkout -- . ' EXIT
+trap 'git -C /repo checkout -- . ; rm -rf /verif/evidence; mkdir -p /verif/evidence; cp -a '"$bak"'/. /verif/evidence/; rm -rf '"$bak" EXIT
 for id in "$@"; do
   out=$(/verif/check $id ${TIER:+--tier $TIER} 2>&1); rc=$?
   echo "== $id rc=$rc"; echo "$out" | grep -E "VIOLATION|UNDECIDED|KNOWN|failed:|HELD|VIOLATED" | cut -c1-400
